@@ -186,13 +186,63 @@ def run_triple(ra, ts, r=None):
   return outs
 
 
+def gen_history(r):
+  """k tree-shaped references (Any often: it becomes a link in a reference chain) and a list of operations."""
+  k = r.choice([3, 3, 4])
+  base = rand_term(r, 2)
+  if isinstance(base, str) or base[0] != 'rec':
+    base = ['rec', False, [[f, rand_term(r, 1)] for f in FIELDS if r.random() < 0.6]]
+  terms = []
+  for _ in range(k):
+    q = r.random()
+    terms.append('Any' if q < 0.4 else (rand_related(r, base, 2) if q < 0.85 else rand_term(r, 2)))
+  ops = []
+  for _ in range(r.randint(3, 7)):
+    if r.random() < 0.3:
+      ops.append(['close', r.randrange(k)])
+    else:
+      i, j = r.sample(range(k), 2)
+      ops.append(['unify', i, j])
+  return terms, ops
+
+
+def run_history(ra, terms, ops, r=None):
+  """Returns the steps actually performed: [(op, [read-back of every reference])]; a close is performed only on a
+  reference that currently reads back as an open record; the run stops after the first step that shows a clash."""
+  refs = [build_ref(ra, t, r) for t in terms]
+  steps = []
+  for op in ops:
+    try:
+      if op[0] == 'close':
+        cur = read_back(ra, refs[op[1]])
+        if not (isinstance(cur, list) and cur[0] == 'rec' and not cur[1]):
+          continue
+        refs[op[1]].CloseRecord()
+      else:
+        ra.Unify(refs[op[1]], refs[op[2]])
+      view = [read_back(ra, x) for x in refs]
+    except Exception as e:  # the implementation must not crash on well-formed types
+      view = ['Bad'] * len(refs)
+    steps.append((op, view))
+    if any(has_bad(v) for v in view):
+      break
+  return steps
+
+
+def coq_history(terms, steps):
+  def cop(op):
+    return '(HClose %d)' % op[1] if op[0] == 'close' else '(HUnify %d %d)' % (op[1], op[2])
+  return '([%s], [%s])' % ('; '.join(coq_term(t) for t in terms),
+                           '; '.join('(%s, [%s])' % (cop(op), '; '.join(coq_term(v) for v in view)) for op, view in steps))
+
+
 def eval_cases(kind, chunks):
   """kind: 'judge' | 'judge3'.  chunks: list of lists of Coq case strings.  Returns flat list of ints or None."""
   from concurrent.futures import ThreadPoolExecutor
 
   def one(chunk):
     text = ('From Coq Require Import List. Import ListNotations.\n'
-            'From LV Require Import Types.TypeAlgebra Types.TypeCheck.\n'
+            'From LV Require Import Types.TypeAlgebra Types.TypeHist Types.TypeCheck.\n'
             'Definition cases := [\n%s\n].\n'
             'Eval vm_compute in map %s cases.\n' % (';\n'.join(chunk), kind))
     rc, out = coqrun.coq_eval(text, timeout=900)
@@ -232,7 +282,8 @@ def run(tier, replay=None):
     with open(replay) as f:
       rp = json.load(f)
     pairs = [(rp['a'], rp['b'])] if 'a' in rp else []
-    triples = [tuple(rp['terms'])] if 'terms' in rp else []
+    triples = [tuple(rp['terms'])] if 'terms' in rp and 'ops' not in rp else []
+    hists = [(rp['terms'], rp['ops'])] if 'ops' in rp else []
   else:
     d1 = depth1_terms()
     pairs = [(a, b) for a in d1 for b in d1]
@@ -246,6 +297,7 @@ def run(tier, replay=None):
     for _ in range(n_tri):
       a = rand_term(r, 3)
       triples.append((a, rand_related(r, a, 3), rand_related(r, a, 3)))
+    hists = [gen_history(r) for _ in range(1500 if tier == 'quick' else 40000)]
 
   # --- implementation runs
   pair_cases, pair_laws = [], []
@@ -264,13 +316,18 @@ def run(tier, replay=None):
     tri_cases.append('(%s, %s, %s, [%s])' % (coq_term(ts[0]), coq_term(ts[1]), coq_term(ts[2]),
                                             '; '.join(coq_term(x) for x in rs)))
 
+  hist_steps = [run_history(ra, ts, ops, r) for ts, ops in hists]
+  hist_cases = [coq_history(ts, st) for (ts, _), st in zip(hists, hist_steps)]
+
   # --- model side
-  codes = codes3 = None
+  codes = codes3 = codesh = None
   if ok:
     codes, out = eval_cases('judge', chunked(pair_cases, 1500))
     if codes is not None:
       codes3, out = eval_cases('judge3', chunked(tri_cases, 500)) if tri_cases else ([], '')
-    if codes is None or codes3 is None:
+    if codes3 is not None:
+      codesh, out = eval_cases('judge_hist', chunked(hist_cases, 500)) if hist_cases else ([], '')
+    if codes is None or codes3 is None or codesh is None:
       ok = False
       info['excerpt'] = out[-3000:]
 
@@ -304,6 +361,16 @@ def run(tier, replay=None):
               'law': 'for a clash-free set of constraints every unification order reads back the meet of all'})
       elif c == 1:
         broken_ties.append(ts)
+  if codesh is not None:
+    for (ts, ops), st, c in zip(hists, hist_steps, codesh):
+      if c != 0:
+        found += 1
+        if found <= 8:
+          rep.violation('history:%s' % common.short_hash([ts, ops]), {
+              'terms': ts, 'ops': ops, 'observed_steps': [[op, view] for op, view in st],
+              'law': 'references unified at some point denote the same type ever after, and every reference reads back '
+                     'the meet of its class (oracle: Types/TypeHist.v view after every operation)',
+              'how': 'props.c16.run_history(reference_algebra, terms, ops)'})
   if not ok and not found:
     rep.violation('proof', {'broken': 'theories/Props/C16.v or its dependencies no longer check',
                             'failing_files': info.get('failing'), 'excerpt': info.get('excerpt', '')[:3000]},
@@ -314,14 +381,17 @@ def run(tier, replay=None):
 
   nontrivial = len(set(common.canon(p) for p in pairs if not (isinstance(p[0], str) and isinstance(p[1], str))))
   rep.coverage.update({
-      'evaluations': len(pairs) + 6 * len(triples),
+      'evaluations': len(pairs) + 6 * len(triples) + sum(len(st) for st in hist_steps),
       'distinct_nontrivial': nontrivial + len(set(common.canon(t) for t in triples)),
       'rule': 'all 142^2 pairs of depth<=1 terms over fields {a,b,0} (exhaustive) + random depth<=3 pairs '
-              '(70% built to be related) + random triples x 6 orders; non-trivial = at least one side is a list or record',
+              '(70% built to be related) + random triples x 6 orders + histories of Unify/CloseRecord on 3-4 references (every reference read back after every operation); non-trivial = at least one side is a list or record',
       'exhaustive': False,
       'samples': [{'a': pairs[i][0], 'b': pairs[i][1]} for i in (200, 5000, len(pairs) - 1) if i < len(pairs)] +
                  [{'terms': list(triples[0])}] if triples else [],
-      'distribution': {'pairs': len(pairs), 'triples': len(triples), 'pairs_clash': stats['clash'],
+      'distribution': {'pairs': len(pairs), 'triples': len(triples), 'histories': len(hists),
+                       'history_steps': sum(len(st) for st in hist_steps), 'history_closes': sum(1 for st in hist_steps for op, _ in st if op[0] == 'close'),
+                       'histories_ending_in_clash': sum(1 for st in hist_steps if st and any(has_bad(v) for v in st[-1][1])),
+                       'history_tie_exact': (codesh or []).count(0), 'pairs_clash': stats['clash'],
                        'pairs_clean': stats['clean'], 'by_max_depth': stats['depth'],
                        'triples_clash_free': (codes3 or []).count(0) + (codes3 or []).count(1) + (codes3 or []).count(2),
                        'tie_exact': (codes or []).count(0), 'tie_differs_same_meaning': (codes or []).count(1)},
